@@ -228,6 +228,11 @@ func (x *Exec) valueOfObj(st *State, obj types.Object, name string) *Value {
 		v := scalarV(o.Type(), x.b.Var("func."+funcQual(o), RefSort))
 		return v
 	case *types.Builtin, *types.TypeName:
+		if x.softNames {
+			// an "ensures internal" clause names a local that shares its name with a type and
+			// is not in scope at this exit: skip the clause here
+			panic(softMiss{})
+		}
 		x.fail("identifier %s used as value", name)
 	}
 	return x.constInt(0)
